@@ -335,7 +335,29 @@ func ringReplay(c *Ctx, ms map[string]*ssa.Function, name string) (string, strin
 			}
 			if isFull {
 				nfull++
-				if ok, why := rp.advanced(st, "start"); !ok {
+				ok, why := rp.advanced(st, "start")
+				if !ok {
+					// a full ring has start == end (the invariant the flag clause below maintains: full ⇔ end met start): a new
+					// start written in terms of the old end is judged with end read as start, facts included
+					sub := func(l lin) lin {
+						out := linConst(l.k)
+						for a, n := range l.c {
+							if a == "end" {
+								a = "start"
+							}
+							out = out.add(linAtom(a), n)
+						}
+						return out
+					}
+					rp2 := &ringPath{stores: rp.stores, flags: rp.flags}
+					for _, f := range rp.facts {
+						rp2.facts = append(rp2.facts, ringFact{d: sub(f.d), op: f.op, k: f.k})
+					}
+					if ok2, _ := rp2.advanced(sub(st), "start"); ok2 {
+						ok = true
+					}
+				}
+				if !ok {
 					bad = append(bad, "full ring: "+why+" (the oldest element is not given up): "+where)
 				}
 			} else {
@@ -348,7 +370,9 @@ func ringReplay(c *Ctx, ms map[string]*ssa.Function, name string) (string, strin
 			switch {
 			case !hasFull:
 			case rp.knowsEq0(diff):
-				if finalFlag != "true" {
+				// F0: the flag is left as it was — on a path that knows size == capacity it was true (the size is the capacity
+				// only with end == start and the flag set)
+				if finalFlag != "true" && !(isFull && finalFlag == "F0") {
 					bad = append(bad, "end meets start but full ends "+finalFlag+": "+where)
 				}
 			case rp.knowsNe0(diff):
